@@ -206,6 +206,7 @@ type MonHit struct {
 }
 
 type Exec struct {
+	rootEnv  *Env // the shared application instance (scenarios run on cache contexts of it)
 	env      *Env
 	ctx      sdk.Context
 	out      *bufio.Writer
@@ -258,6 +259,10 @@ func (x *Exec) run(lines []string) {
 			x.scLines = append(x.scLines, line)
 			out = "."
 		case toks[0] == "reset":
+			if x.rootEnv == nil {
+				x.rootEnv = x.env
+			}
+			x.env = x.rootEnv
 			x.ctx = x.env.scenarioCtx()
 			x.fam = map[string]interface{}{}
 			x.halted = false
@@ -317,6 +322,9 @@ func catch(fn func() error) (res string, msg string) {
 		if r := recover(); r != nil {
 			res = "panic"
 			msg = fmt.Sprint(r)
+			if os.Getenv("VERIF_DEBUG") != "" {
+				fmt.Fprintf(os.Stderr, "recovered panic: %v\n%s\n", r, debug.Stack())
+			}
 		}
 	}()
 	if err := fn(); err != nil {
